@@ -136,6 +136,27 @@ where
             break;
         }
     }
+    // hidden-position set extended: positions beyond n (appended / prepended), an extra in-range position
+    {
+        let mut variants: Vec<(String, Vec<usize>)> = vec![];
+        for extra in [n, n + 1, n + 7, 1000] {
+            let mut u2 = hidden.clone();
+            u2.push(extra);
+            variants.push((format!("appended out-of-range position {}", extra), u2));
+            let mut u3 = vec![extra];
+            u3.extend(hidden.iter().cloned());
+            variants.push((format!("prepended out-of-range position {}", extra), u3));
+        }
+        if let Some(&r) = (0..n).filter(|i| !hidden.contains(i)).collect::<Vec<_>>().first() {
+            let mut u2 = hidden.clone();
+            u2.push(r);
+            variants.push((format!("appended revealed position {}", r), u2));
+        }
+        // (a repeated or re-ordered list denotes the same SET of positions: not demanded to be rejected)
+        for (what, u2) in variants {
+            reject("hidden-set-list-altered", ver(&h.proof, &h.cpk, pk, &h.bases, &h.revealed, &u2, n), what)?;
+        }
+    }
     {
         // n + 1 / n - 1 (with key material for the extra position so that only the statement differs)
         let mut b2 = h.bases.clone();
